@@ -395,6 +395,35 @@ var c13Profile = &sim.Profile{
 	MinLen: 20, MaxLen: 40, Templates: c13Templates, TplProb: 0.65, NoiseProb: 0.1,
 }
 
+var c13GluedProfile = &sim.Profile{
+	W:      map[string]int{"login": 20, "sms_validate": 20, "regen": 10, "visit": 10, "advance": 5, "sms_setup": 5, "sms_confirm": 5},
+	Cls:    map[string]map[string]int{"sms_validate": {"numcode": 40, "ok": 30, "wrong": 30}, "sms_confirm": {"numcode": 50, "ok": 30, "wrong": 20}},
+	MinLen: 12, MaxLen: 22, TplProb: 1,
+	Templates: []sim.Template{{Name: "remembered-session-plus-own-parked-sms-login", F: func(s *sim.Sim) []*sim.Action {
+		if !s.RememberActive() || !s.Cfg.Has("auth") || !s.Cfg.Has2FA("sms") {
+			return nil
+		}
+		v := findAcct(s, func(u *world.User) bool { return u.Confirmed && u.SMSPhone == "" && u.TOTPSecretKey == "" })
+		if v < 0 {
+			return nil
+		}
+		var own = -1
+		for i := range s.Accts {
+			if u := s.W.Store.Peek(s.Accts[i].PID); i != v && u != nil && u.SMSPhone != "" && u.TOTPSecretKey == "" && u.Confirmed {
+				own = i
+			}
+		}
+		if own < 0 {
+			return nil
+		}
+		// the victim's browser is remembered; its session is lost and restored from the cookie (half-authenticated);
+		// the intruder at that browser runs the password step of his OWN SMS account, then posts glued "codes"
+		return []*sim.Action{act("login", 0, v, "ok", "rm", "true"), act("dropsid", 0, -9, ""), act("visit", 0, -9, "", "route", "/public"),
+			act("login", 0, own, "ok"), act("sms_validate", 0, -9, "numcode"), act("regen", 0, -9, ""), act("visit", 0, -9, "", "route", "/protected/full"),
+			act("sms_setup", 0, -9, "fresh"), act("sms_confirm", 0, -9, "numcode")}
+	}}},
+}
+
 func init() {
 	register(&Check{
 		ID: "C13", Level: "exploration",
@@ -421,6 +450,19 @@ func init() {
 				return
 			}
 			sim.RunHistory(s, c13Profile, []sim.Monitor{c13mon{stats: c.Stats, lv: authLevels{}}}, c.Stats, unit)
+			if unit%2 == 1 && len(c.Stats.Violations) == 0 && cfg.Has2FA("sms") {
+				// a third, directed history (generator of its own): a remembered session of an account WITHOUT SMS, the
+				// visitor's own SMS login parked in it, and "codes" that carry more than a code
+				r3 := Rng(c.Seed, "C13-glued", unit)
+				cfg3 := cfg
+				if !cfg3.Has("remember") {
+					cfg3.Modules = append(append([]string(nil), cfg.Modules...), "remember")
+				}
+				cfg3.UseExpire, cfg3.TwoFAEmail = false, false
+				if s3, err := sim.New(cfg3, r3, sim.SeedOpt{Accounts: 4, Browsers: 3, TwoFAProb: 0.5}); err == nil {
+					sim.RunHistory(s3, c13GluedProfile, []sim.Monitor{c13mon{stats: c.Stats, lv: authLevels{}}}, c.Stats, unit)
+				}
+			}
 			if unit%2 == 0 && len(c.Stats.Violations) == 0 {
 				// a second history (generator of its own) with the lock module loaded: its hooks save the user
 				// object the 2FA handlers worked on after every failed attempt — whatever those handlers did to
